@@ -231,3 +231,129 @@ func runCACHESAFE(c *Ctx) {
 		c.AnchorMissing("a constructor of NodeCache in package mast")
 	}
 }
+
+// ---- CACHEVERBATIM --------------------------------------------------------------------
+//
+// The trees key a shared NodeCache by "<store prefix>/<node name>" (CACHEKEY): the prefix is what keeps one store's
+// nodes apart from another's, so that "the cache has it" means "this store has it". A cache type of the repository that
+// re-keys what it is given — by the digest behind the name, "to save memory" (adv16-D-a1) — undoes that inside the
+// cache, where no call site can see it: a cache shared by two stores vouches for nodes it saw in the other one and
+// MakeRoot skips the writes.
+
+func init() {
+	Register(&Rule{ID: "CACHEVERBATIM", Props: []string{"C03", "C02", "C05", "C11", "C19"}, Min: 0,
+		Doc: "a NodeCache implemented in the repository uses the key it is given as it is: in its Add, Contains and Get, every call that leaves the repository (the underlying LRU) and every map access takes the method's key parameter itself as its key — never a value computed from it (trimmed, hashed, decoded, re-formatted), and the key is not handed to a repository helper whose result is used instead. (Min 0: today NewNodeCache returns hashicorp's ARC directly and there is no such type.)",
+		Run: runCACHEVERBATIM})
+}
+
+func runCACHEVERBATIM(c *Ctx) {
+	P := c.P
+	ifaceNamed := P.Named(ir.MastPath, "NodeCache")
+	if ifaceNamed == nil {
+		c.AnchorMissing("interface NodeCache")
+		return
+	}
+	iface, _ := ifaceNamed.Underlying().(*types.Interface)
+	if iface == nil {
+		c.AnchorMissing("interface NodeCache")
+		return
+	}
+	for _, fn := range P.Funcs {
+		if fn.Parent() != nil || fn.Signature.Recv() == nil || fn.Pkg == nil {
+			continue
+		}
+		if mn := fn.Name(); mn != "Add" && mn != "Contains" && mn != "Get" {
+			continue
+		}
+		rt := fn.Signature.Recv().Type()
+		if !types.Implements(rt, iface) && !types.Implements(types.NewPointer(rt), iface) {
+			continue
+		}
+		if len(fn.Params) < 2 {
+			continue
+		}
+		key := fn.Params[1]
+		isKey := func(v ssa.Value) bool {
+			v = ir.ResolveCell(v)
+			for i := 0; i < 3; i++ {
+				switch x := v.(type) {
+				case *ssa.ChangeInterface:
+					v = ir.ResolveCell(x.X)
+				case *ssa.MakeInterface:
+					v = ir.ResolveCell(x.X)
+				}
+			}
+			return v == ssa.Value(key)
+		}
+		// does v depend on the key parameter?
+		var dep func(v ssa.Value, d int) bool
+		dep = func(v ssa.Value, d int) bool {
+			if d > 8 || v == nil {
+				return false
+			}
+			v = ir.ResolveCell(v)
+			if v == ssa.Value(key) {
+				return true
+			}
+			ins, ok := v.(ssa.Instruction)
+			if !ok {
+				return false
+			}
+			for _, op := range ins.Operands(nil) {
+				if *op != nil && dep(*op, d+1) {
+					return true
+				}
+			}
+			return false
+		}
+		n := 0
+		for _, g := range append([]*ssa.Function{fn}, fn.AnonFuncs...) {
+			for _, b := range g.Blocks {
+				for _, ins := range b.Instrs {
+					pos := P.InstrPos(ins)
+					switch x := ins.(type) {
+					case ssa.CallInstruction:
+						com := x.Common()
+						if callee := ir.Callee(com); callee != nil && callee.Pkg != nil && strings.HasPrefix(callee.Pkg.Pkg.Path(), ir.MastPath) {
+							for _, a := range com.Args {
+								if dep(a, 0) && callee.Signature.Results().Len() > 0 {
+									n++
+									c.Violation(fn, pos, "cache key handed to "+callee.Name(),
+										"the cache's "+fn.Name()+" hands its key to "+callee.Name()+" and goes on with the result: the trees key the cache by store prefix and node name so that a node seen in one store is not taken for present in another; a cache that re-keys internally (by digest, by trimmed name) merges the stores again, and MakeRoot skips writes to the second store")
+								}
+							}
+							continue
+						}
+						for _, a := range com.Args {
+							if isKey(a) {
+								n++
+								c.OK(pos, "key passed on by "+ir.FuncName(fn), "the key parameter itself", false)
+							} else if dep(a, 0) {
+								n++
+								c.Violation(fn, pos, "cache key transformed in "+fn.Name(),
+									"the underlying cache is addressed by "+pathDesc(ir.Sym(a))+", computed from the key, instead of the key the tree supplied: entries of different stores (different prefixes) can collide or an entry added under one key is not found under the same key")
+							}
+						}
+					case *ssa.Lookup:
+						if _, isMap := x.X.Type().Underlying().(*types.Map); isMap {
+							n++
+							if isKey(x.Index) {
+								c.OK(pos, "map lookup in "+ir.FuncName(fn), "by the key parameter itself", false)
+							} else if dep(x.Index, 0) {
+								c.Violation(fn, pos, "cache key transformed in "+fn.Name(), "the map is read under a value computed from the key instead of the key itself")
+							}
+						}
+					case *ssa.MapUpdate:
+						n++
+						if isKey(x.Key) {
+							c.OK(pos, "map update in "+ir.FuncName(fn), "under the key parameter itself", false)
+						} else if dep(x.Key, 0) {
+							c.Violation(fn, pos, "cache key transformed in "+fn.Name(), "the map is written under a value computed from the key instead of the key itself")
+						}
+					}
+				}
+			}
+		}
+		_ = n
+	}
+}
